@@ -77,9 +77,11 @@ META = dict(
          "plus depth 8 with merging beyond 3); each history dlopen()s its own copy of the shared object so the first "
          "dlclose unmaps it (verified with RTLD_NOLOAD).  After the close every variable access and every fetch of a "
          "symbol not fetched before must raise, repeated closes (explicit, and the implicit one when the library "
-         "object is freed; thorough: probed after every history up to depth 5) must be harmless, and the process must "
+         "object is freed: probed at the end of every history up to depth 3, thorough: of every distinct state up to "
+         "depth 5 of the merged pass) must be harmless, and the process must "
          "survive; a dead worker is reported as a violation with the journalled history.  Further families, each "
-         "enumerated exhaustively with the same oracle (quick depth 3-4, thorough depth 4-6): vars(lib) / lib.__dict__ "
+         "enumerated exhaustively with the same oracle (quick depth 3-4, thorough depth 3-6; the evidence lists the "
+         "configurations, depth and alphabet of every pass): vars(lib) / lib.__dict__ "
          "as a fetch-everything operation; five other kinds of global (array, struct, pointer, function pointer, "
          "array of unknown length) with plain / variadic functions, symbols declared but absent from the library, an "
          "integer #define and an out-of-line non-integer constant; a twin library object on the same file (reference "
@@ -880,8 +882,12 @@ def run_contained(jobs):
     shallow = []
     for pname, cfg, depth, d0, split, probe in jobs:
         sd = min(split, depth)
-        shallow.append(("shallow", cfg, (), sd, min(d0, sd), probe, pname))
-    done = drain(shallow)
+        if sd > 0:
+            shallow.append(("shallow", cfg, (), sd, min(d0, sd), probe, pname))
+    done = drain(shallow) if shallow else {}
+    for pname, cfg, depth, d0, split, probe in jobs:
+        if min(split, depth) == 0:
+            done[(pname, cfg)] = set()       # split 0: the whole tree of the configuration is one (contained) job
     items = []
     for pname, cfg, depth, d0, split, probe in jobs:
         sd = min(split, depth)
